@@ -843,10 +843,13 @@ func hsCheckOutcome(w *World, sc *HsScenario, n *Nodes, d *hsDialResult, idx int
 		report("C13", "client's initial_source_connection_id differs from the source connection ID it uses", "tp %x scid %x", tp.Val, clientSCID)
 	}
 	tp, has := tapTP(c.SrvTP, 0x10)
+	// (a Retry on the wire is not yet a Retry the client acted on: it may have been lost, or have answered a damaged copy of
+	// an Initial whose intact copy the server accepted)
+	acted := c.Retried && !bytes.Equal(c.InitDCID, c.ODCID)
 	switch {
-	case c.Retried && (!has || !bytes.Equal(tp.Val, c.RetrySCID)):
+	case acted && (!has || !bytes.Equal(tp.Val, c.RetrySCID)):
 		report("C14", "retry_source_connection_id does not carry back the connection ID of the Retry the client acted on", "tp %x retry scid %x", tp.Val, c.RetrySCID)
-	case !c.Retried && has:
+	case !acted && has:
 		report("C13", "retry_source_connection_id present although no Retry took place", "tp %x", tp.Val)
 	}
 	if c.Retried {
